@@ -1,5 +1,5 @@
 """C03 — named fields load correctly in any request order, with absent and unread fields."""
-from .scopegen import gen_scope_ops
+from .scopegen import gen_scope_ops, gen_tupobj_ops
 from .binstream_gen import gen_bs
 
 THEOREMS = [
@@ -7,7 +7,16 @@ THEOREMS = [
     "BSVerif.Props.C03.history_correct",
     "BSVerif.Props.C03.close_after_any_history",
     "BSVerif.Props.C03.fresh_scope_inv",
-    "BSVerif.Props.C03.array_left_partly_read_refuted",
+    "BSVerif.Props.C03.req_correct",
+    "BSVerif.Props.C03.history_with_arrays_correct",
+    "BSVerif.Props.C03.close_after_any_history_with_arrays",
+    "BSVerif.Props.C03.array_left_partly_read_harmless",
+    "BSVerif.Props.C03.array_left_partly_read_refuted_before_fix",
+    "BSVerif.Props.C03.objReadArr_is_machine",
+    "BSVerif.Props.C03.arrReads_is_machine",
+    "BSVerif.Scope.objReadArr_spec",
+    "BSVerif.Scope.arrReads_at",
+    "BSVerif.Scope.arrCloseLoop_at",
     "BSVerif.Scope.findLoop_cyclic",
     "BSVerif.Scope.findValueByKey_spec",
     "BSVerif.Scope.objGet_spec",
@@ -18,8 +27,9 @@ THEOREMS = [
     "BSVerif.Scope.VarKey.eqKeyNoGuard_refuted",
 ]
 RULE = ("CSV tables read by column name in any order / twice / absent through both CSV readers; random MsgPack documents (objects with distinct string/int keys; scalar, array and object values, depth <= 3) x request "
-        "histories (reverse/shuffled/partial orders, repeated and absent keys, nested open/partial read/close, VisitKeys, sentinel after "
-        "the object) x {memory, stream} x policies, on the real read scopes; stream documents shifted across the 256-byte cache "
+        "histories (reverse/shuffled/partial orders, repeated and absent keys, nested open/partial read/close — array scopes left partly read at any element and followed by further requests on the "
+        "enclosing scopes —, VisitKeys, sentinel after the object; 8% of the documents cut at a token boundary: correspondence of the deferred-error "
+        "path; std::tuple shorter/longer than the array inside a class followed by another field) x {memory, stream} x policies, on the real read scopes; stream documents shifted across the 256-byte cache "
         "boundary; plus CBinaryStreamReader position histories; non-trivial = history with >= 3 requests; distinct = distinct op lines")
 EXHAUSTIVE = {"quick": False, "thorough": False}
 ASSUMPTIONS = ["token-level reader: positions are token indices (byte-level reader is C07's model)",
@@ -32,6 +42,7 @@ def nontrivial(op, impl):
 
 def gen(tier, rng, boost=1):
     ops = gen_scope_ops(tier, rng, boost)
+    ops += gen_tupobj_ops(tier, rng, boost)
     ops += gen_bs(tier, rng, boost)[: (150 if tier == "quick" else 3000)]
     ops += keyeq_ops(tier, rng)
     # CSV rows are objects too: named columns requested in any order / repeatedly / absent, memory and stream reader,
